@@ -122,6 +122,8 @@ class Basic_Player
 		unsigned int max_stack_depth;
 		// # of loops in the stack where the loop count is 0.
 		unsigned int loop_begin_depth;
+		// play_time at the last jump back to the loop point (-1 = none yet)
+		unsigned int last_loop_jump_time;
 };
 
 //! Generic track player.
